@@ -19,7 +19,7 @@ def main():
     if '--tier' in sys.argv:
         tier = sys.argv[sys.argv.index('--tier') + 1]
         args = [a for a in args if a != tier]
-    d, props = args[0], args[1:]
+    d, props = os.path.abspath(args[0]), args[1:]
     patch, demo = os.path.join(d, 'patch.diff'), os.path.join(d, 'demo.py')
     rc, out = sh(['git', '-C', '/repo', 'status', '--porcelain'])
     assert out.strip() == '', '/repo is not clean: ' + out
@@ -32,7 +32,7 @@ def main():
     if rc != 0:
         res['apply_error'] = out[-500:]
         print(json.dumps(res, indent=1))
-        sh(['git', '-C', '/repo', 'checkout', '--', '.'])
+        sh(['git', '-C', '/repo', 'reset', '--hard', '-q', 'HEAD'])
         return
     try:
         rc, out = sh(['/venv/bin/python', '-m', 'pytest', '-q', '-p', 'no:cacheprovider', '-x'], cwd='/repo', env=env)
@@ -50,8 +50,7 @@ def main():
                 r = json.load(open(reps[0]))
                 res['checks'][p]['first_replay'] = {'code': r.get('code'), 'meaning': r.get('meaning'), 'kind': r.get('kind')}
     finally:
-        sh(['git', '-C', '/repo', 'checkout', '--', '.'])
-        sh(['git', '-C', '/repo', 'reset', '-q'])
+        sh(['git', '-C', '/repo', 'reset', '--hard', '-q', 'HEAD'])
     rc, out = sh(['timeout', '120', '/venv/bin/python', demo], env=env, cwd=d)
     res['demo_without_change'] = rc
     rc, out = sh(['git', '-C', '/repo', 'status', '--porcelain'])
